@@ -582,6 +582,17 @@ def do_project(payload):
             octx = {'destdir': D, 'logfile': logfile, 'build_logs': os.path.join(build, 'meson-logs'), 'proj': proj,
                     'log_after': log_after, 'log_before': log_before, 'rc': r.returncode}
             ofails += oracle_step(k, step, before, after, octx)
+            # created set within the specified set, whatever existed before (pre-populated trees, reinstalls,
+            # other rules of the same project): a path that APPEARS in this step must be a destination of a selected
+            # rule (sources minus exclusions) or an ancestor directory of one
+            if step['op'] == 'install' and not step.get('dry') and not spec.get('no_expect'):
+                exp_any = expected_tree(spec, hist, step, root, D, dat.install_umask, inherited)
+                if exp_any is not None:
+                    for p_ in sorted(after):
+                        if under(p_, arena) and p_ not in before and p_ not in exp_any:
+                            ofails.append({'kind': 'unplanned_new', 'step': k, 'path': p_, 'node': after[p_]})
+                            if sum(1 for f_ in ofails if f_['kind'] == 'unplanned_new') > 6:
+                                break
             # exactness: first step, real install, empty arena, succeeded
             if (k == 0 and step['op'] == 'install' and not step.get('dry') and not hist.get('pre')
                     and r.returncode == 0 and not spec.get('no_expect')):
